@@ -127,6 +127,15 @@ func c06Check(c *fw.Ctx, s string, class string, mustReject string) {
 		if msg == "" {
 			c.Fail("empty-error", "the error message is empty")
 		}
+		// an error value can be rendered as often as the caller likes
+		var msg2 string
+		if c.Guard("error-message-panic", func() { msg2 = err.Error() }) {
+			return
+		}
+		if msg2 != msg {
+			c.Fail("error-message-changes", "the error renders as %q the first time and as %q the second time", clipStr(msg, 200), clipStr(msg2, 200))
+			return
+		}
 		if t != nil && !isNilGeom(t) {
 			c.Fail("error-and-geometry", "Unmarshal returned both an error and a geometry")
 		}
@@ -615,6 +624,10 @@ func c06Mutate(c *fw.Ctx, idx int) {
 			const fills = " \t\n\r 0(A)  ,"
 			fill := fills[r.Intn(len(fills))]
 			run := bytes.Repeat([]byte{fill}, []int{29, 30, 31, 32, 33, 59, 60, 61, 62, 100, 257}[r.Intn(11)]+r.Intn(2))
+			if r.Chance(1, 12) {
+				// texts of several kilobytes (thresholds such as 4096 and 65536 are nearby)
+				run = bytes.Repeat([]byte{fill}, []int{4000, 4090, 4096, 4100, 5000, 9000, 65530, 65540, 70000}[r.Intn(9)]+r.Intn(3))
+			}
 			var p int
 			switch r.Intn(3) {
 			case 0:
